@@ -14,9 +14,9 @@ Open Scope N_scope.
    START stmt* [END] ROLLBACK — each legal where it is issued, none rejected by the server
    (a second XA ROLLBACK of an already rolled back branch, answered XAER_NOTA, counts as a no-op).
    The run-level statement over all programs is C17_accepted_legal below. *)
-Theorem C17_legal : forall detach slow fS fM fE fE2 fP fR fR2,
-  (fE = true -> fE2 = false) ->
-  let '(t, d, kept, o, act) := auto_local detach false slow fS fM fE fE2 fP fR fR2 in
+Theorem C17_legal : forall detach slow fS fM fE rE fE2 rE2 fP fR fR2,
+  (rE = false -> fE = true -> fE2 = false \/ rE2 = true) ->
+  let '(t, d, kept, o, act) := auto_local detach false slow fS fM fE rE fE2 rE2 fP fR fR2 in
   exists s, legal_from S0 t = Some s /\ agree s d /\ (is_prepared d = true -> kept = true).
 Proof. exact auto_local_legal. Qed.
 
@@ -68,28 +68,30 @@ Proof. exact reg_first_all. Qed.
    PREPARE returns an error, and, when the compensating commands are not made to fail as well,
    leaves the branch rolled back (or never started). The hypothesis `slow -> fR = false` is the
    listed finding xa.timeout.rollback-fault (C17_timeout_refuted). *)
-Theorem C17_failure : forall detach busy slow fS fM fE fE2 fP fR fR2,
-  let '(t, d, kept, o, act) := auto_local detach busy slow fS fM fE fE2 fP fR fR2 in
+Theorem C17_failure : forall detach busy slow fS fM fE rE fE2 rE2 fP fR fR2,
+  let '(t, d, kept, o, act) := auto_local detach busy slow fS fM fE rE fE2 rE2 fP fR fR2 in
   (o = OOk \/ o = OErr) /\
   ~ In (COMMIT, ROk) t /\
   ((slow = true -> fR = false) ->
      (o = OOk <-> is_prepared d = true) /\
      (o = OOk -> t = [(START, ROk); (STMT, ROk); (END_, ROk); (PREPARE, ROk)])) /\
-  ((slow = true -> fR = false) -> (busy || slow || fS || fM || fE || fP) = true -> o = OErr) /\
-  ((busy || slow || fS || fM || fE || fP) = true -> fR = false -> (fE = true -> fE2 = false) -> (fM = true -> fE = false) ->
+  ((slow = true -> fR = false) -> (busy || slow || fS || fM || fE || rE || fP) = true -> o = OErr) /\
+  (* rE / rE2: XA END meets a rollback-only branch (XA_RB* error, branch left IDLE): rolled back like any failure *)
+  ((busy || slow || fS || fM || fE || rE || fP) = true -> fR = false -> (rE = false -> fE = true -> fE2 = false \/ rE2 = true) ->
+   (fM = true -> fE = false /\ rE = false) ->
      d = None /\ (fS = true \/ busy = true \/ In (ROLLBACK, ROk) t)).
 Proof. exact auto_local_failure. Qed.
 
 (* a timed-out branch returns an error to the caller, is rolled back, released, and inactive *)
-Theorem C17_timeout : forall detach fE2 fP fR2,
-  let '(t, d, kept, o, act) := auto_local detach false true false false false fE2 fP false fR2 in
+Theorem C17_timeout : forall detach fE2 rE2 fP fR2,
+  let '(t, d, kept, o, act) := auto_local detach false true false false false false fE2 rE2 fP false fR2 in
   o = OErr /\ d = None /\ kept = false /\ act = false /\
   exists r, t = [(START, ROk); (STMT, ROk); (END_, ROk); (ROLLBACK, ROk); (ROLLBACK, r)] /\ r <> ROk.
 Proof. exact auto_local_timeout. Qed.
 
 Theorem C17_timeout_refuted :
   exists detach fE2 fP,
-    let '(t, d, kept, o, act) := auto_local detach false true false false false fE2 fP true false in
+    let '(t, d, kept, o, act) := auto_local detach false true false false false false fE2 false fP true false in
     o = OOk /\ is_prepared d = false /\ In (ROLLBACK, ROk) t.
 Proof. exact auto_local_timeout_refuted. Qed.
 
@@ -119,7 +121,8 @@ Definition ex_env : env :=
      e_bid := fun k => 100 + N.of_nat k;
      e_refuse := fun k => Nat.eqb k 3;
      e_fault := fun c n => match c, n with PREPARE, 1%nat => true | STMT, 6%nat => true | _, _ => false end;
-     e_fbad := fun c n => match c, n with STMT, 6%nat => true | _, _ => false end |}.
+     e_fbad := fun c n => match c, n with STMT, 6%nat => true | _, _ => false end;
+     e_frb := fun _ => false |}.
 Definition ex_prog : list op :=
   [OAuto 0 None false; OAuto 1 None false; OLocal; OPhase2 0 true false; OAuto 0 None false;
    OAuto 1 None false; OPhase2 4 false true;
@@ -166,12 +169,25 @@ Proof. vm_compute. repeat split. Qed.
    phase two then finishes the (detached) PREPARED branch on a new session *)
 Example C17_checker_nonvacuous :
   let E := {| e_detach := true; e_xid := e_xid ex_env; e_bid := e_bid ex_env; e_refuse := fun _ => false;
-              e_fault := fun _ _ => false; e_fbad := fun _ _ => false |} in
+              e_fault := fun _ _ => false; e_fbad := fun _ _ => false; e_frb := fun _ => false |} in
   let p := [OAuto 0 None false; OCheck false; OCheck true; OPhase2 0 true false] in
   outcomes E p = [OOk; OChk []; OChk [1%nat]; OP2 true]
   /\ cmds_of (xa_id (e_xid E 0) 100) (journal E p) = [(START, ROk); (STMT, ROk); (END_, ROk); (PREPARE, ROk); (COMMIT, ROk)]
   /\ In (ESql 2 COMMIT (xa_id (e_xid E 0) 100) ROk) (journal E p).
 Proof. vm_compute. repeat split. auto 10. Qed.
+
+(* a rollback-only branch at XA END: the error comes back, the branch is rolled back; a phase-two
+   rollback on a process that does not hold the connection (server < 8.0.29) is refused and says so *)
+Example C17_rollback_only_nonvacuous :
+  let E := {| e_detach := false; e_xid := e_xid ex_env; e_bid := e_bid ex_env; e_refuse := fun _ => false;
+              e_fault := fun c n => match c, n with END_, 0%nat => true | _, _ => false end;
+              e_fbad := fun _ _ => false; e_frb := fun n => Nat.eqb n 0 |} in
+  let p := [OAuto 0 None false; OAuto 1 None false; ORelease 1; OPhase2 1 false false] in
+  outcomes E p = [OErr; OOk; OSkipped; OP2 false]
+  /\ cmds_of (xa_id (e_xid E 0) 100) (journal E p) = [(START, ROk); (STMT, ROk); (END_, RRb); (END_, RRmfail); (ROLLBACK, ROk)]
+  /\ cmds_of (xa_id (e_xid E 1) 101) (journal E p) = [(START, ROk); (STMT, ROk); (END_, ROk); (PREPARE, ROk); (ROLLBACK, RNota)]
+  /\ legal_trace (cmds_of (xa_id (e_xid E 0) 100) (journal E p)) = true.
+Proof. vm_compute. repeat split. Qed.
 
 Example C17_ident_nonvacuous :
   xa_id (bytes_of_string "a-1") 23 = bytes_of_string "a-1-23"
